@@ -300,16 +300,13 @@ func c15(c *Ctx) {
 		switch {
 		case r.Class == "panic" || r.Class == "fatal" || r.Class == "hang" || r.Class == "neither" || r.Class == "badreply":
 			verdict = r.Class
-		case r.Class == "err" && strings.Contains(r.Err, "blocked fields"):
-			verdict = "error"
+		case r.Class == "err" && r.TreeHash == "":
+			verdict = "error" // no result tree at all: the dependency walk itself failed
 		default:
-			for _, e := range r.Errors {
-				if strings.Contains(e, "is not available") {
-					verdict = "not-available"
-				}
-			}
-			if verdict == "available" && r.Class == "err" {
-				verdict = "other-error:" + r.Err
+			// every query of this check is valid against the schema apart from the field under test,
+			// so an error in the tree means the field is refused (no reliance on message texts)
+			if r.HasErrors {
+				verdict = "not-available"
 			}
 		}
 		c.Count("impl:" + strings.SplitN(verdict, ":", 2)[0])
